@@ -13,7 +13,13 @@
 
   Sections: 1 equality · 2 friction loss (|force| ≤ frictionloss, D = 0 case) · 3 limit/pyramidal
   (force ≥ 0) · 4 elliptic (zones, cone condition 4g/4h/4j) · 5 force = -∂cost/∂jaref, continuity ·
-  6 cost ≥ 0 · 7 SATISFIED ⇒ zero force · 8 consistency with line-search evaluators · examples.
+  6 cost ≥ 0 · 7 SATISFIED ⇒ zero force · 8 consistency with line-search evaluators · examples ·
+  9 kernel level (`_update_constraint_efc__kernel`, tracking on, generic K): a thread that writes a row state different from
+  the stored one increments `state_changed_count` (`state_change_is_counted`), so the Newton/pyramidal stable-state fast path
+  (stale gradient, `qfrc_constraint` recovered as Ma - qfrc_smooth - grad_scale*grad) is only taken by worlds in which no
+  row force law changed branch; example: friction row LINEARNEG → LINEARPOS.
+  Missing: the launch-level statement (sum of the atomic increments over the threads of a world = number of changed rows,
+  and the recovery identity qfrc_constraint = Jᵀ·force itself) is not proved; it is sampled by the harness oracle.
   What is FALSE: continuity of friction force/cost across ±rf when D = 0 (see Props/C24Witness.lean).
 -/
 import MjwVerif.Lemmas.C24
@@ -834,4 +840,78 @@ example : _eval_constraint false false true (0:ℝ) 2 0 7 7 0 2 1 0 4 = ⟨2, CO
 
 end examples
 
+/-! ## 9. kernel level: every change of a row's state is reported to the stable-state fast path
+
+`solver._update_constraint_efc(track_changes=True)` is the per-iteration constraint update of the Newton / pyramidal
+("incremental") path. A world whose `state_changed_count` stays 0 in an iteration keeps its stale `grad` / `qfrc_constraint`
+and only updates the scalar `grad_scale`; after the solve `qfrc_constraint` is recovered from that scaled gradient. This is
+sound only if EVERY change of a row's state is counted, not just changes of the quadratic flag: a friction-loss row going
+LINEARNEG (2) <-> LINEARPOS (3) keeps the Hessian but changes the row force by 2*frictionloss. -/
+
+/-- (9) Whatever state `s` the thread (w, e) of the translated kernel writes to `efc_state_out[w, e]` (tracking on): if it differs
+    from the state stored before the launch, the thread also increments `state_changed_count_out[w]`. All inputs, generic
+    scalar type, elliptic and non-elliptic rows; no hypothesis on the row law. (Threads of finished worlds, out-of-range rows
+    and skipped elliptic rows write no state, so nothing is claimed for them - they change nothing.) -/
+theorem state_change_is_counted {K : Type} [Scalar K] (imp : Int → K) (ne nf nefc : Int → Int) (cfr : Int → V5 K)
+    (cdim : Int → Int) (cadr : Int → Int → Int) (ety eid : Int → Int → Int) (eD efl : Int → Int → K) (nacon : Int → Int)
+    (jar : Int → Int → K) (lsx done : Int → Bool) (fo : Int → Int → K) (so : Int → Int → Int) (qids : Int → Int → Int)
+    (qcnt scnt : Int → Int) (shp a0 a1 w e s : Int)
+    (hw : (Write.mk "efc_state_out" [w, e] (WVal.i s) WKind.set : Write K) ∈
+      _update_constraint_efc__kernel imp ne nf nefc cfr cdim cadr ety eid eD efl nacon jar lsx done fo so qids qcnt scnt true shp a0 a1 w e)
+    (hs : s ≠ so w e) :
+    (Write.mk "state_changed_count_out" [w] (WVal.i 1) WKind.aadd : Write K) ∈
+      _update_constraint_efc__kernel imp ne nf nefc cfr cdim cadr ety eid eD efl nacon jar lsx done fo so qids qcnt scnt true shp a0 a1 w e := by
+  by_cases hd : done w = true
+  · simp [_update_constraint_efc__kernel, hd] at hw
+  by_cases h1 : e ≥ nefc w
+  · by_cases hx : (decide (e = 0) && lsx w) = true <;>
+      simp [_update_constraint_efc__kernel, hd, h1, hx] at hw
+  by_cases h2 : ety w e = 7
+  · by_cases h3 : eid w e ≥ nacon 0
+    · by_cases hx : (decide (e = 0) && lsx w) = true <;>
+        simp [_update_constraint_efc__kernel, hd, h1, h2, h3, hx] at hw
+    by_cases h4 : cadr (eid w e) 0 < 0
+    · by_cases hx : (decide (e = 0) && lsx w) = true <;>
+        simp [_update_constraint_efc__kernel, hd, h1, h2, h3, h4, hx] at hw
+    by_cases hx : (decide (e = 0) && lsx w) = true
+    · simp only [_update_constraint_efc__kernel, hd, h1, h2, h3, h4, hx, if_true, if_false, decide_false, Bool.false_eq_true, List.nil_append] at hw ⊢
+      generalize forRange _ _ _ _ = fr at hw ⊢
+      generalize _eval_constraint (K := K) _ _ _ _ _ _ _ _ _ _ _ _ _ = ec at hw ⊢
+      split_ifs <;> simp
+    · simp only [_update_constraint_efc__kernel, hd, h1, h2, h3, h4, hx, if_true, if_false, decide_false, Bool.false_eq_true, List.nil_append,
+        Write.lookupI, List.foldl_nil] at hw ⊢
+      generalize forRange _ _ _ _ = fr at hw ⊢
+      generalize _eval_constraint (K := K) _ _ _ _ _ _ _ _ _ _ _ _ _ = ec at hw ⊢
+      split_ifs at hw ⊢ <;> simp_all
+  · by_cases hx : (decide (e = 0) && lsx w) = true
+    · simp only [_update_constraint_efc__kernel, hd, h1, h2, hx, if_true, if_false, decide_false, Bool.false_eq_true, List.nil_append] at hw ⊢
+      generalize _eval_constraint (K := K) _ _ _ _ _ _ _ _ _ _ _ _ _ = ec at hw ⊢
+      split_ifs <;> simp
+    · simp only [_update_constraint_efc__kernel, hd, h1, h2, hx, if_true, if_false, decide_false, Bool.false_eq_true, List.nil_append,
+        Write.lookupI, List.foldl_nil] at hw ⊢
+      generalize _eval_constraint (K := K) _ _ _ _ _ _ _ _ _ _ _ _ _ = ec at hw ⊢
+      split_ifs at hw ⊢ <;> simp_all
+
+/-- (9) non-vacuity, and the scenario itself: one world, one friction-loss row (ne = 0, nf = 1, D = 1, frictionloss = 1/2) whose stored
+    state is LINEARNEG (2) and whose new `Jaref = 1 ≥ rf` puts it into LINEARPOS (3): the quadratic flag does not change, the
+    kernel writes state 3, and the state-change counter is incremented. -/
+example :
+    (Write.mk "efc_state_out" [0, 0] (WVal.i 3) WKind.set : Write ℝ) ∈
+      _update_constraint_efc__kernel (K := ℝ) (fun _ => 1) (fun _ => 0) (fun _ => 1) (fun _ => 1) (fun _ => ⟨1, 0, 0, 0, 0⟩) (fun _ => 1)
+        (fun _ _ => 0) (fun _ _ => 1) (fun _ _ => 0) (fun _ _ => 1) (fun _ _ => 1 / 2) (fun _ => 0) (fun _ _ => 1)
+        (fun _ => false) (fun _ => false) (fun _ _ => 0) (fun _ _ => 2) (fun _ _ => 0) (fun _ => 0) (fun _ => 0) true 1 0 0 0 0
+    ∧ (3 : Int) ≠ 2
+    ∧ (Write.mk "state_changed_count_out" [0] (WVal.i 1) WKind.aadd : Write ℝ) ∈
+      _update_constraint_efc__kernel (K := ℝ) (fun _ => 1) (fun _ => 0) (fun _ => 1) (fun _ => 1) (fun _ => ⟨1, 0, 0, 0, 0⟩) (fun _ => 1)
+        (fun _ _ => 0) (fun _ _ => 1) (fun _ _ => 0) (fun _ _ => 1) (fun _ _ => 1 / 2) (fun _ => 0) (fun _ _ => 1)
+        (fun _ => false) (fun _ => false) (fun _ _ => 0) (fun _ _ => 2) (fun _ _ => 0) (fun _ => 0) (fun _ => 0) true 1 0 0 0 0 := by
+  have hstate : (Write.mk "efc_state_out" [0, 0] (WVal.i 3) WKind.set : Write ℝ) ∈
+      _update_constraint_efc__kernel (K := ℝ) (fun _ => 1) (fun _ => 0) (fun _ => 1) (fun _ => 1) (fun _ => ⟨1, 0, 0, 0, 0⟩) (fun _ => 1)
+        (fun _ _ => 0) (fun _ _ => 1) (fun _ _ => 0) (fun _ _ => 1) (fun _ _ => 1 / 2) (fun _ => 0) (fun _ _ => 1)
+        (fun _ => false) (fun _ => false) (fun _ _ => 0) (fun _ _ => 2) (fun _ _ => 0) (fun _ => 0) (fun _ => 0) true 1 0 0 0 0 := by
+    have hec : (Scalar.toInt (_eval_constraint (K := ℝ) false true false 1 1 2⁻¹ 0 (-1) 0 0 0 0 0).c1) = 3 := by
+      rw [Mjw.Lemmas.C24.eval_friction, Mjw.Lemmas.C24.safe_div_ne _ _ one_ne_zero]
+      norm_num [Scalar.toInt]
+    simp [_update_constraint_efc__kernel, Write.lookupI, hec]
+  exact ⟨hstate, by decide, state_change_is_counted _ _ _ _ _ _ _ _ _ _ _ _ _ _ _ _ _ _ _ _ _ _ _ _ _ 3 hstate (by decide)⟩
 end Mjw.Props.C24
